@@ -159,6 +159,10 @@ type Conn struct {
 	// hand-over to the poller and the end of the registration), 2 when it
 	// was closed meanwhile: addConn then finishes the close.
 	opening int32
+
+	// identifies this registration of the descriptor number with the
+	// poller; epoll hands it back with every event (see poller.regOf).
+	regSeq int32
 }
 
 // Hash returns a hash code of this connection.
